@@ -13,6 +13,8 @@ import (
 	"path/filepath"
 	"runtime"
 	"sort"
+	"strconv"
+	"strings"
 	"testing"
 	"time"
 
@@ -26,6 +28,7 @@ var (
 	fSeed      = flag.Int64("sim.seed", 1, "VERIF_SEED")
 	fProc      = flag.Int("sim.proc", 0, "process index (decorrelates processes)")
 	fRuns      = flag.Int("sim.runs", 0, "max runs (0 = unlimited)")
+	fSkip      = flag.String("sim.skip", "", "comma-separated run indices to skip (runs in which the toolchain's race runtime is known to die)")
 	fFrom      = flag.Int("sim.from", 0, "index of the first run (runs are seeded independently: seed, proc, run)")
 	fSecs      = flag.Float64("sim.secs", 10, "wall-clock budget in seconds")
 	fOut       = flag.String("sim.out", "", "summary JSON output file")
@@ -208,9 +211,18 @@ func TestSim(t *testing.T) {
 		defer hashF.Close()
 	}
 	seenClass := map[string]bool{}
+	skip := map[int]bool{}
+	for _, f := range strings.Split(*fSkip, ",") {
+		if n, err := strconv.Atoi(strings.TrimSpace(f)); err == nil {
+			skip[n] = true
+		}
+	}
 	for run := *fFrom; ; run++ {
 		if *fRuns > 0 && run >= *fFrom+*fRuns {
 			break
+		}
+		if skip[run] {
+			continue
 		}
 		if *fSecs > 0 && time.Since(start).Seconds() > *fSecs {
 			break
